@@ -14,6 +14,7 @@ from pyab_experiment.data_structures.syntax_tree import (
 )
 from pyab_experiment.language.lexer import ExperimentLexer
 from pyab_experiment.sly import Parser
+from pyab_experiment.sly.yacc import YaccError
 
 
 class ExperimentParser(Parser):
@@ -34,6 +35,14 @@ class ExperimentParser(Parser):
         ("left", KW_AND),
         ("left", KW_NOT),
     )
+
+    def error(self, token):
+        """no error recovery: a syntax error is raised, never repaired by skipping tokens"""
+        if token:
+            raise YaccError(
+                f"Syntax error at line {getattr(token, 'lineno', 0)}, token={token.type}"
+            )
+        raise YaccError("Parse error in input. EOF")
 
     @_("header_id LBRACE opt_header_salt opt_splitter conditional RBRACE")
     def header(self, p):
